@@ -2,18 +2,33 @@
 Driver for stream `mempool` (C08): one op per line, one observation per line.
   case <k>                                   -> case <k>          (resets everything)
   new <capacity>                             -> ok
+  subs <0|1>                                 -> ok                (RunSubscriptions / StopSubscriptions)
   tx <i> <sys> <net> <size> <high 0|1> <oracle|-> <signers a,b,..> <conflicts i,j,..|->
                                              -> fpb=<net/size>    (defines transaction i; id = i)
   bal <primary> <secondary> <amount>         -> ok                (Feer stub balance)
-  add <i>                                    -> ok|err:<class>|panic ; <state>
+  add <i> <data>                             -> ok|err:<class>|panic ; <state>      (data 0 = no data argument)
   remove <i>                                 -> ok ; <state>
-  stale <feePerByte> <dropped i,j,..|->      -> ok rs=<resent ids in call order|-> ; <state>
+  stale <feePerByte> <dropped i,j,..|->      -> ok rs=<resent id:data in call order|-> ; <state>
   height <h>                                 -> ok                (Feer stub BlockHeight)
   threshold <h>                              -> ok                (SetResendThreshold)
   verify <i>                                 -> true|false|panic
-<state> = txs=<ids most prioritized first|-> n=<count> has=<bits> hc=<bits> ver=<bits>
+<state> = txs=<ids most prioritized first|-> n=<count> has=<bits> hc=<bits> gd=<TryGetData per defined tx: data or x>
+          it=<id:data in list order (IterateVerifiedTransactions)> st=<item.blockStamp in list order>
+          cf=<conflicts map: hash:ids;..> or=<oracleResp: id:hash,..> fees=<p.s:balance/feeSum,..> pol=<feePerByte>
+          ev=<events sent since the last state: +id:data / -id:data> ver=<bits>
   (bits: one per defined transaction in definition order: ContainsKey, HasConflicts, Verify;
-   the Verify probes run in that order and may fill the balance cache, exactly as in the pool)
+   the Verify probes run in that order, after everything else was read, and may fill the balance cache,
+   exactly as in the pool)
+
+Concurrent phase (real goroutines on the real pool; the harness records the order of the critical sections):
+  conc-begin                                 -> ok                (starts the list of states S_0 = current)
+  cadd <i> <data> | cremove <i> | cstale <feePerByte> <dropped>
+                                             -> ok|err:<class>    (state-changing calls in lock order; S_k = after the k-th)
+  at <lo> <hi> verify <i> <observed>         -> lin | nolin:<model results on S_lo..S_hi>
+  at <lo> <hi> add <i> <data> <observed>     -> lin | nolin:..    (calls without a recorded critical section: there must be
+                                                                    a state in their real-time window that gives the observed result)
+  conc-end                                   -> <state> with fees entries of sum 0 dropped, rs=<all resends, sorted>,
+                                                ev=<removed events in order>|<added events, sorted>
 -/
 import NeoModel.Base.Proto
 import NeoModel.Model.Mempool
@@ -25,8 +40,12 @@ structure St where
   bals : List (Payer × Nat)
   fpb : Nat
   height : Nat
+  evSeen : Nat                    -- number of events already printed
+  hist : Array Pool               -- concurrent phase: S_0 .. S_k
+  crs : List (Nat × Nat)          -- concurrent phase: resends so far
 
-def St.init : St := { pool := Mempool.new 0, table := [], bals := [], fpb := 0, height := 0 }
+def St.init : St :=
+  { pool := Mempool.new 0, table := [], bals := [], fpb := 0, height := 0, evSeen := 0, hist := #[], crs := [] }
 
 def St.feer (s : St) : Feer :=
   { balance := fun p q => match s.bals.find? (fun e => e.1 == (p, q)) with
@@ -43,36 +62,95 @@ def parseList (w : String) : Option (List Nat) :=
 def csv (l : List Nat) : String :=
   if l.isEmpty then "-" else ",".intercalate (l.map toString)
 
+def joinOr (sep : String) (l : List String) : String :=
+  if l.isEmpty then "-" else sep.intercalate l
+
 def bit (b : Bool) : String := if b then "1" else "0"
 
+/-- insertion sort, duplicates dropped -/
+def insSorted (lt : α → α → Bool) (x : α) : List α → List α
+  | [] => [x]
+  | y :: ys => if lt x y then x :: y :: ys else if lt y x then y :: insSorted lt x ys else y :: ys
+
+def sortDedup (lt : α → α → Bool) (l : List α) : List α := l.foldl (fun acc x => insSorted lt x acc) []
+
+/-- insertion sort keeping duplicates -/
+def insAll (lt : α → α → Bool) (x : α) : List α → List α
+  | [] => [x]
+  | y :: ys => if lt y x then y :: insAll lt x ys else x :: y :: ys
+
+def sortAll (lt : α → α → Bool) (l : List α) : List α := l.foldl (fun acc x => insAll lt x acc) []
+
+def payerLt (a b : Payer) : Bool := a.1 < b.1 || (a.1 == b.1 && a.2 < b.2)
+
+def evStr (e : Event) : String := s!"{if e.added then "+" else "-"}{e.id}:{e.data}"
+
+def pairStr (p : Nat × Nat) : String := s!"{p.1}:{p.2}"
+
+def pairLt (a b : Nat × Nat) : Bool := a.1 < b.1 || (a.1 == b.1 && a.2 < b.2)
+
+/-- the part of the state that is read without changing anything -/
+def deep (s : St) (mp : Pool) (dropZero : Bool) : String :=
+  let gd := ",".intercalate (s.table.map (fun t => match tryGetData mp t.id with | some d => toString d | none => "x"))
+  let gv := String.join (s.table.map (fun t => bit (tryGetValue mp t.id == some t)))
+  let it := joinOr "," ((iterate mp).map pairStr)
+  let st := csv (mp.txs.map (fun t => mp.stamp t.id))
+  let ckeys := sortDedup (fun a b => decide (a < b)) (s.table.flatMap (·.conflicts))
+  let cf := joinOr ";" (ckeys.filterMap (fun h => (mp.conflicts h).map (fun l => s!"{h}:{csv l}")))
+  let okeys := sortDedup (fun a b => decide (a < b)) (s.table.filterMap (·.oracle))
+  let orc := joinOr "," (okeys.filterMap (fun i => (mp.oracleResp i).map (fun h => s!"{i}:{h}")))
+  let pkeys := sortDedup payerLt (s.table.map payerOf)
+  let fees := joinOr "," (pkeys.filterMap (fun q => match mp.fees q with
+    | some f => if dropZero && f.feeSum == 0 then none else some s!"{q.1}.{q.2}:{f.balance}/{f.feeSum}"
+    | none => none))
+  s!"gd={if s.table.isEmpty then "-" else gd} gv={if s.table.isEmpty then "-" else gv} it={it} st={st} cf={cf} or={orc} fees={fees} pol={mp.feePerByte}"
+
 /-- the state observation; threads the pool through the Verify probes. -/
-def dump (s : St) : St × String :=
+def dump (s : St) (conc : Bool) : St × String :=
   let mp := s.pool
   let has := String.join (s.table.map (fun t => bit (containsKey mp t.id)))
   let hc := String.join (s.table.map (fun t => bit (hasConflicts mp t)))
+  let evs := mp.events.drop s.evSeen
+  let ev :=
+    if conc then
+      joinOr "," ((evs.filter (fun e => !e.added)).map evStr) ++ "|" ++
+      joinOr "," ((sortAll pairLt ((evs.filter (·.added)).map (fun e => (e.id, e.data)))).map pairStr)
+    else joinOr "," (evs.map evStr)
   let (mp', ver) := s.table.foldl (fun (acc : Pool × String) t =>
       let r := verify acc.1 t s.feer
       (r.1, acc.2 ++ bit r.2)) (mp, "")
-  ({ s with pool := mp' },
-   s!"txs={csv (mp.txs.map (·.id))} n={mp.txs.length} has={has} hc={hc} ver={ver}")
+  ({ s with pool := mp', evSeen := mp.events.length },
+   s!"txs={csv (mp.txs.map (·.id))} n={mp.txs.length} has={has} hc={hc} {deep s mp conc} ev={ev} ver={ver}")
 
 def errName : Err → String
   | .funds => "funds" | .conflict => "conflict" | .dup => "dup"
   | .oom => "oom" | .cattr => "cattr" | .oracle => "oracle"
 
+def resName : Option Err → String
+  | none => "ok"
+  | some e => "err:" ++ errName e
+
 def withState (s : St) (res : String) : St × String :=
   if s.pool.panicked then (s, "panic")
   else
-    let (s', d) := dump s
+    let (s', d) := dump s false
     if s'.pool.panicked then (s', "panic") else (s', s!"{res} ; {d}")
+
+/-- a state-changing call of the concurrent phase: apply, remember the state -/
+def concStep (s : St) (mp : Pool) (res : String) : St × String :=
+  ({ s with pool := mp, hist := s.hist.push mp }, if mp.panicked then "panic" else res)
+
+def window (s : St) (lo hi : Nat) : List Pool :=
+  (List.range (hi + 1 - lo)).filterMap (fun k => s.hist[lo + k]?)
 
 def step (s : St) (ws : List String) : St × String :=
   match ws with
   | ["case", k] => (St.init, s!"case {k}")
   | ["new", c] =>
     match c.toNat? with
-    | some c => ({ s with pool := Mempool.new c }, "ok")
+    | some c => ({ s with pool := Mempool.new c, evSeen := 0 }, "ok")
     | none => (s, "bad-op")
+  | ["subs", b] => ({ s with pool := setSubs s.pool (b == "1") }, "ok")
   | ["tx", i, sys, net, size, high, orc, sg, cf] =>
     match i.toNat?, sys.toNat?, net.toNat?, size.toNat?, parseList sg, parseList cf with
     | some i, some sys, some net, some size, some sg, some cf =>
@@ -86,12 +164,12 @@ def step (s : St) (ws : List String) : St × String :=
     | some p, some q, some a =>
       ({ s with bals := ((p, q), a) :: s.bals.filter (fun e => e.1 != (p, q)) }, "ok")
     | _, _, _ => (s, "bad-op")
-  | ["add", i] =>
-    match i.toNat? >>= s.tx? with
-    | some t =>
-      let (mp, e) := add s.pool t s.feer
-      withState { s with pool := mp } (match e with | none => "ok" | some e => "err:" ++ errName e)
-    | none => (s, "bad-op")
+  | ["add", i, d] =>
+    match i.toNat? >>= s.tx?, d.toNat? with
+    | some t, some d =>
+      let (mp, e) := add s.pool t s.feer d
+      withState { s with pool := mp } (resName e)
+    | _, _ => (s, "bad-op")
   | ["remove", i] =>
     match i.toNat? with
     | some i => withState { s with pool := remove s.pool i } "ok"
@@ -101,7 +179,7 @@ def step (s : St) (ws : List String) : St × String :=
     | some f, some dr =>
       let s := { s with fpb := f }
       let mp := removeStale s.pool (fun t => !dr.contains t.id) s.feer
-      withState { s with pool := mp } s!"ok rs={csv mp.resent}"
+      withState { s with pool := mp } s!"ok rs={joinOr "," (mp.resent.map pairStr)}"
     | _, _ => (s, "bad-op")
   | ["height", h] =>
     match h.toNat? with
@@ -117,6 +195,44 @@ def step (s : St) (ws : List String) : St × String :=
       let (mp, b) := verify s.pool t s.feer
       ({ s with pool := mp }, if mp.panicked then "panic" else if b then "true" else "false")
     | none => (s, "bad-op")
+  | ["conc-begin"] => ({ s with hist := #[s.pool], crs := [] }, "ok")
+  | ["cadd", i, d] =>
+    match i.toNat? >>= s.tx?, d.toNat? with
+    | some t, some d =>
+      let (mp, e) := add s.pool t s.feer d
+      concStep s mp (resName e)
+    | _, _ => (s, "bad-op")
+  | ["cremove", i] =>
+    match i.toNat? with
+    | some i => concStep s (remove s.pool i) "ok"
+    | none => (s, "bad-op")
+  | ["cstale", f, dr] =>
+    match f.toNat?, parseList dr with
+    | some f, some dr =>
+      let s := { s with fpb := f }
+      let mp := removeStale s.pool (fun t => !dr.contains t.id) s.feer
+      concStep { s with crs := s.crs ++ mp.resent } mp "ok"
+    | _, _ => (s, "bad-op")
+  | ["at", lo, hi, "verify", i, obs] =>
+    match lo.toNat?, hi.toNat?, i.toNat? >>= s.tx? with
+    | some lo, some hi, some t =>
+      let rs := (window s lo hi).map (fun mp => let r := verify mp t s.feer
+                                                if r.1.panicked then "panic" else if r.2 then "true" else "false")
+      (s, if rs.contains obs then "lin" else "nolin:" ++ ",".intercalate rs)
+    | _, _, _ => (s, "bad-op")
+  | ["at", lo, hi, "add", i, d, obs] =>
+    match lo.toNat?, hi.toNat?, i.toNat? >>= s.tx?, d.toNat? with
+    | some lo, some hi, some t, some d =>
+      let rs := (window s lo hi).map (fun mp => let r := add mp t s.feer d
+                                                if r.1.panicked then "panic" else resName r.2)
+      (s, if rs.contains obs then "lin" else "nolin:" ++ ",".intercalate rs)
+    | _, _, _, _ => (s, "bad-op")
+  | ["conc-end"] =>
+    if s.pool.panicked then (s, "panic")
+    else
+      let (s', d) := dump s true
+      let rs := joinOr "," ((sortAll pairLt s.crs).map pairStr)
+      ({ s' with hist := #[], crs := [] }, if s'.pool.panicked then "panic" else s!"rs={rs} ; {d}")
   | _ => (s, "bad-op")
 
 def main : IO Unit := Proto.run St.init step
